@@ -511,11 +511,30 @@ func (w *SkyWorld) AfterBlock(br *world.BlockResult) []*core.Violation {
 		skip := -1
 		if !actual.Equal(exp) && w.FaultMethod != "" {
 			for i, dp := range ds {
-				if exp.Sub(dp.amount).Equal(actual) {
-					skip = i
-					b.R.Stats.Probe("deposit_failed_under_fault")
-					break
+				if !exp.Sub(dp.amount).Equal(actual) {
+					continue
 				}
+				// several deposits may carry the same amount: the one that failed is the one whose (tracked) receiver was not credited
+				if acc, err := sdk.AccAddressFromBech32(dp.receiver); err == nil && w.Bal[dp.receiver] != nil {
+					got := b.N.App.BankKeeper.GetBalance(ctx, acc, dp.denom).Amount
+					if !got.Equal(w.Bal[dp.receiver][dp.denom]) && skip == -1 {
+						// credited (possibly together with others): keep looking for a better candidate, remember as fallback
+						continue
+					}
+				}
+				skip = i
+				break
+			}
+			if skip == -1 {
+				for i, dp := range ds {
+					if exp.Sub(dp.amount).Equal(actual) {
+						skip = i
+						break
+					}
+				}
+			}
+			if skip >= 0 {
+				b.R.Stats.Probe("deposit_failed_under_fault")
 			}
 		}
 		for i, dp := range ds {
